@@ -84,11 +84,21 @@ func (n *node[T]) buildMethods() {
 	buildMethodIndexes(n.methodIndex)
 }
 
-func (n *node[T]) AllowHeader() string { return n.methodEntity().options }
+func (n *node[T]) AllowHeader() string { return n.lockedMethodEntity().options }
 
 // Methods 当前节点支持的请求方法
-func (n *node[T]) Methods() []string { return n.methodEntity().methods }
+func (n *node[T]) Methods() []string { return n.lockedMethodEntity().methods }
 
+// 供外部调用，n.methodIndex 可能同时被 Add、Remove 等方法修改，需要获取 n.root 的读锁。
+func (n *node[T]) lockedMethodEntity() methodIndexEntity {
+	if n.root.locker != nil {
+		n.root.locker.RLock()
+		defer n.root.locker.RUnlock()
+	}
+	return n.methodEntity()
+}
+
+// 调用方需要已经持有 n.root 的锁
 func (n *node[T]) methodEntity() methodIndexEntity {
 	methodIndexesLocker.RLock()
 	defer methodIndexesLocker.RUnlock()
